@@ -13,6 +13,7 @@ import (
 	"os"
 	"path/filepath"
 	"runtime"
+	"runtime/debug"
 	"sort"
 	"strconv"
 	"strings"
@@ -123,7 +124,23 @@ type c19Out struct {
 	maxUs           map[string]int64
 }
 
+// c19Inflight holds the op that is being executed: a fatal runtime error (stack overflow, …) kills the process without running
+// deferred functions, so the check reads this file to learn which op did it and re-runs that op alone to confirm.
+var c19Inflight *os.File
+
+func c19Mark(op map[string]any) {
+	if c19Inflight == nil {
+		return
+	}
+	b, _ := json.Marshal(op)
+	c19Inflight.Truncate(0)
+	c19Inflight.WriteAt(append(b, '\n'), 0)
+}
+
 func c19Open(dir string) *c19Out {
+	// unbounded recursion should end in seconds, not after the default 1 GB of stack
+	debug.SetMaxStack(64 << 20)
+	c19Inflight, _ = os.Create(filepath.Join(dir, "inflight.jsonl"))
 	o := &c19Out{counts: map[string]map[string]int{}, dist: map[string]int{}, maxUs: map[string]int64{}}
 	mk := func(name string) *bufio.Writer {
 		f, err := os.Create(filepath.Join(dir, name))
@@ -169,6 +186,7 @@ func (o *c19Out) emit(op map[string]any, line string) {
 
 // explored (not modelled) entry point: pure crash/timeout oracle; only failures are kept with their input
 func (o *c19Out) explore(ep string, input string, fn func() string) string {
+	c19Mark(map[string]any{"op": "x." + ep, "input": input})
 	t0 := time.Now()
 	res := c19Guard(fn)
 	if us := time.Since(t0).Microseconds(); us > o.maxUs[ep] {
